@@ -11,6 +11,15 @@ import (
 	"time"
 )
 
+type BoundedRun struct {
+	Name     string `json:"name"`     // obligation name
+	Function string `json:"function"` // the function it stands in for
+	Dir      string `json:"dir"`      // package directory under /repo
+	File     string `json:"file"`     // test source under /verif
+	Test     string `json:"test"`     // test function
+	Bound    string `json:"bound"`    // the stated bound
+}
+
 type Prop struct {
 	ID          string   `json:"id"`
 	Packages    []string `json:"packages"`
@@ -25,6 +34,9 @@ type Prop struct {
 	Profile        string `json:"profile"` // contracts declared `func F @profile` replace the default contract of F
 
 	Bounded     []string `json:"bounded"` // function keys whose obligations are bounded (never counted as proved)
+	// executable bounded stand-ins for functions outside the verifier's reach: an in-package test (source kept
+	// under /verif/bounded) injected by overlay and run against the real code; labelled bounded, never counted as proved
+	BoundedRuns []BoundedRun `json:"bounded_runs"`
 	Sweep       []string `json:"sweep"`   // functions verified for safety only without a written contract (zero-annotation sweep)
 	// obligations (substring of the obligation name) that belong to ANOTHER property although they are
 	// generated from a function this property also depends on; they are decided under that property
